@@ -141,6 +141,11 @@ def uRound : Float := Float.ofBits 0x3CA0000000000000
 
 def fInf : Float := Float.ofBits 0x7FF0000000000000
 
+/-- absolute error of a result that may have underflowed (products, quotients, powers): a computed
+`0.0` of such an operation is then "within its own error bound of zero", i.e. a guard on it is one
+that rounding alone can flip -/
+def fTiny : Float := Float.ofBits 0x0000000000000400
+
 /-- "this value's sign / zero-ness could be flipped by rounding" -/
 def FB.ambiguous (x : FB) : Bool := x.err > 0.0 && x.v.abs ≤ 8.0 * x.err
 
@@ -171,25 +176,25 @@ def fbNum (mode : Nat) : Num FB where
   add a b := FB.round (a.v + b.v) (a.err + b.err) [a, b]
   sub a b := FB.round (a.v - b.v) (a.err + b.err) [a, b]
   neg a := { a with v := -a.v }
-  mul a b := FB.round (a.v * b.v) (a.v.abs * b.err + b.v.abs * a.err + a.err * b.err) [a, b]
+  mul a b := FB.round (a.v * b.v) (a.v.abs * b.err + b.v.abs * a.err + a.err * b.err + fTiny) [a, b]
   div a b :=
     let v := a.v / b.v
     let d := b.v.abs - b.err
-    FB.round v (if b.err == 0.0 then a.err / b.v.abs
-      else if d > 0.0 then (a.err + v.abs * b.err) / d else fInf) [a, b]
+    FB.round v ((if b.err == 0.0 then a.err / b.v.abs
+      else if d > 0.0 then (a.err + v.abs * b.err) / d else fInf) + fTiny) [a, b]
   powNat a n :=
     let nf := Float.ofNat n
     let v := Float.pow a.v nf
     let e1 := if a.err == 0.0 then 0.0
       else 2.0 * nf * Float.pow a.v.abs (nf - 1.0) * a.err + Float.pow a.err nf
-    FB.round v e1 [a]
+    FB.round v (e1 + fTiny) [a]
   rpow x y :=
     let v := Float.pow x.v y.v
     let d := x.v - x.err
     let e1 := if x.err == 0.0 && y.err == 0.0 then 0.0
       else if d > 0.0 then 2.0 * v.abs * (y.v.abs * x.err / d + (Float.log x.v).abs * y.err)
       else fInf
-    pure (FB.round v (e1 + 2.0 * uRound * v.abs) [x, y])
+    pure (FB.round v (e1 + 2.0 * uRound * v.abs + fTiny) [x, y])
   sqrt x :=
     let v := Float.sqrt x.v
     let d := x.v - x.err
